@@ -217,6 +217,30 @@ func (g *Gen) call(st *State) Ev {
 	return e
 }
 
+// nearby: an account that has to do with the request but is not its provider
+func (g *Gen) nearby(st *State, q ReqRec) string {
+	var c []string
+	for _, po := range st.POwner {
+		if po.P == q.Prov && po.O != q.Prov {
+			c = append(c, po.O)
+		}
+	}
+	for _, x := range st.Ctx {
+		if x.ID == int(q.Rid[0]) {
+			c = append(c, x.Cons)
+			for _, p := range x.Provs {
+				if p != q.Prov {
+					c = append(c, p)
+				}
+			}
+		}
+	}
+	if len(c) == 0 {
+		return g.pick(g.All)
+	}
+	return c[g.R.Intn(len(c))]
+}
+
 func (g *Gen) respond(st *State) Ev {
 	kind := g.pick([]string{"valid", "valid", "valid", "none", "bad"})
 	if len(st.ActId) > 0 && g.chance(0.85) {
@@ -224,8 +248,11 @@ func (g *Gen) respond(st *State) Ev {
 		for _, q := range st.Req {
 			if q.Rid == a {
 				signer := q.Prov
-				if g.chance(0.06) {
+				if g.chance(0.08) {
 					signer = g.pick(g.All)
+					if g.chance(0.5) { // the provider's owner, the consumer: close to the request, not its provider
+						signer = g.nearby(st, q)
+					}
 				}
 				return Ev{Name: "Respond", Signer: signer, Rid: q.Rid, Kind: kind}
 			}
